@@ -561,6 +561,8 @@ def str_inputs(d, rng, alphabet, maxlen=3, sample=None, extra=()):
             "bb", "b{2}", "abbc", "b", "bab", "Bb", "x{3}",
             # a case-insensitive, Unicode-aware regex: KELVIN SIGN folds to k; Arabic-Indic digits are not [0-9]
             "k1", "K22", "\u212a7", "\u212a", "k", "k\u0663", "kx", "1k", "K 1", "k1\n",
+            # longer than three characters with blanks inside and outside (sanitizer order shows here)
+            " ab cd", "a  bcd ", "  abcd  ", "ab c d",
             "a" * 63, "a" * 64, "a" * 65, "\u0436" * 64, "B" * 255, "x" * 256, " " + "b" * 300 + " ", "\u00df" * 65, "\U0001F600" * 70]
     return out
 
@@ -1129,16 +1131,19 @@ def gen_msg_decls(rng, tier):
         bvals = [b for b in (-5, 0, 7, 100, lo + 1, hi - 1) if lo <= b <= hi]
         for kind in LOWER + UPPER:
             for bi, b in enumerate(bvals):
-                env = []
-                e = spell_int(ty, b, ["lit", "const", "paren", "usermod", "userassoc"][(bi + n) % 5], env, "b")
-                d = Decl("mi%d" % n, ty, attr([block("validate", [[tid(kind), EQ, tx(e)]]),
-                                               derive_block(["Debug", "FromStr", "Deserialize"])]), env=env,
-                         name=["T", "Amount", "Px", "ExitCodeError", "Error"][n % 5], tags={"msg", "int"})
-                d.bounds = [b]
-                d.vkind = kind
-                d.default_arg = None
-                decls.append(d)
-                n += 1
+                sty = ["lit", "const", "paren", "usermod", "userassoc"][(bi + n) % 5]
+                # the bound 0 and the extremes' neighbours always also as plain literals (what a macro can special-case)
+                for style in ([sty] if sty == "lit" or b not in (0, lo + 1, hi - 1) else ["lit", sty]):
+                    env = []
+                    e = spell_int(ty, b, style, env, "b")
+                    d = Decl("mi%d" % n, ty, attr([block("validate", [[tid(kind), EQ, tx(e)]]),
+                                                   derive_block(["Debug", "FromStr", "Deserialize"])]), env=env,
+                             name=["T", "Amount", "Px", "ExitCodeError", "Error"][n % 5], tags={"msg", "int"})
+                    d.bounds = [b]
+                    d.vkind = kind
+                    d.default_arg = None
+                    decls.append(d)
+                    n += 1
     n = 0
     for ty in ("f32", "f64"):
         is64 = FLOAT_TYPES[ty]
